@@ -53,6 +53,11 @@ def dataset_cfg(rng, tier, prop):
         cfg["exhaustive"] = tier == "thorough" and rng.random() < 0.5
         cfg["sample_per_pos"] = 6 if tier == "quick" else 20
         cfg["n_steps"] = 100000
+        if cfg.get("big"):
+            # every template at every position on 100-label axes would take minutes per run: big runs sample, on axes of 24 at most
+            cfg["exhaustive"] = False
+            cfg["sample_per_pos"] = 4
+            cfg["max_len"] = min(cfg["max_len"], 24)
     else:
         cfg["n_steps"] = rng.randint(4, 25 if tier == "quick" else 45)
     return cfg
